@@ -111,7 +111,167 @@ def dump_result(dt):
     return entries
 
 
+def _param_values(p):
+    from pyxel.observation import ParameterValues
+
+    if p["kind"] == "under":
+        values = "_"
+    elif p["kind"] == "unders":
+        values = ["_"] * p["n"]
+    elif p.get("expr"):
+        values = p["expr"]
+    else:
+        values = [_val(v, p.get("ints", False)) for v in p["values"]]
+    return ParameterValues(key=p["key"], values=values, enabled=p["enabled"])
+
+
+def _write_table(case, tag=""):
+    tab = UNIT["off"] + np.array(case["table"], dtype=float) / UNIT["scale"]
+    if case.get("file", "npy") == "npy":
+        fname = os.path.abspath(f"c05_table{tag}.npy")
+        np.save(fname, tab)
+    else:
+        fname = os.path.abspath(f"c05_table{tag}.txt")
+        with open(fname, "w") as fh:
+            for row in tab:
+                fh.write(" ".join(repr(float(x)) for x in row) + "\n")
+    return fname
+
+
+def _run_once(obs, det, pipe, case):
+    """One pyxel.run_mode of the (possibly already used) Observation object -> what it executed and returned."""
+    import pyxel
+    import verif_probes_c05 as vp
+
+    vp.reset()
+    raised = None
+    entries = []
+    msg = ""
+    try:
+        if bool(obs.with_dask):
+            import dask
+
+            with dask.config.set(scheduler="synchronous"):
+                dt = pyxel.run_mode(mode=obs, detector=det, pipeline=pipe, with_inherited_coords=True)
+                dt = dt.compute() if hasattr(dt, "compute") else dt
+                entries = dump_result(dt)
+        else:
+            dt = pyxel.run_mode(mode=obs, detector=det, pipeline=pipe,
+                                with_inherited_coords=bool(case.get("inherit", True)))
+            entries = dump_result(dt)
+    except Exception as ex:  # noqa: BLE001
+        raised = type(ex).__name__
+        msg = str(ex)[:200]
+    nprobe = max(1, len(case["probes"]))
+    runs = []
+    tr = list(vp.TRACE)
+    for k in range(0, len(tr) - nprobe + 1, nprobe):
+        rec = []
+        for e in tr[k:k + nprobe]:
+            for r in e["received"]:
+                fl = [(-1 if x is None else x) for x in r["eighths"]]
+                rec.append(fl if r["vec"] else (fl[0] if fl else -1))
+        runs.append(rec)
+    out = dict(raised=raised, runs=runs, result=entries, ncalls=len(tr))
+    if raised:
+        out["msg"] = msg
+    return out
+
+
+def _pkey(p):
+    return {k: p.get(k) for k in ("key", "kind", "n", "values", "expr", "ints", "enabled")}
+
+
+def _edit(obs, det, pipe, prev, step, k):
+    """Edit the SAME objects in place, through their public attributes, from configuration `prev` to `step`;
+    only what differs is touched (everything else keeps its identity)."""
+    from pyxel.observation import CustomMode
+    from pyxel.observation.observation import build_parameter_mode
+
+    # configured values (detector fields, model arguments)
+    pd = {s["key"]: s["default"] for s in prev["slots"]}
+    for s in step["slots"]:
+        if pd.get(s["key"]) == s["default"]:
+            continue
+        v = _val(s["default"], False)
+        if s["key"].startswith("detector."):
+            _set_det(det, s["key"][len("detector."):], tuple(v) if isinstance(v, list) else v)
+        else:
+            _, group, model, _, arg = s["key"].split(".")
+            getattr(getattr(pipe, group), model).arguments[arg] = v
+    style = step.get("edit_style", "replace")
+    pm = obs.parameter_mode
+    new_params = None
+    if [_pkey(p) for p in prev["params"]] != [_pkey(p) for p in step["params"]]:
+        new_params = [_param_values(p) for p in step["params"]]
+    if step["mode"] != prev["mode"] or style == "rebuild":
+        # a new parameter-mode object on the same Observation
+        params = new_params if new_params is not None else list(pm.parameters)
+        kw = {}
+        if step["mode"] == "custom":
+            kw = dict(custom_filename=_write_table(step, f"_{k}"),
+                      column_range=tuple(step["range"]) if step.get("range") else None)
+        obs.parameter_mode = build_parameter_mode(mode=step["mode"], parameters=params, **kw)
+    else:
+        if new_params is not None:
+            if style == "inplace" and isinstance(pm.parameters, list):
+                if len(new_params) == len(pm.parameters):
+                    for j, (a, b) in enumerate(zip(prev["params"], step["params"])):
+                        if _pkey(a) != _pkey(b):
+                            pm.parameters[j] = new_params[j]
+                else:
+                    pm.parameters[:] = new_params
+            else:
+                pm.parameters = new_params
+        if step["mode"] == "custom" and (prev["table"] != step["table"] or prev.get("range") != step.get("range")
+                                         or prev.get("file") != step.get("file")):
+            fresh = CustomMode.build(list(pm.parameters), custom_file=_write_table(step, f"_{k}"),
+                                     custom_columns=slice(*step["range"]) if step.get("range") else None)
+            pm.custom_data = fresh.custom_data
+    if bool(step.get("dask")) != bool(prev.get("dask")):
+        obs.with_dask = bool(step.get("dask"))
+
+
+def handle_history(case):
+    """A history on ONE Observation object: build it for the first step, run; for every further step edit the same
+    objects in place to that step's configuration and run again."""
+    from harness import pyx
+    from pyxel.observation import Observation
+
+    steps = case["history"]
+    UNIT.update(off=0.5, scale=float(2 ** 30)) if steps[0].get("fine") else UNIT.update(off=0.0, scale=8.0)
+    outs = []
+    first = steps[0]
+    obs = det = pipe = None
+    try:
+        det, pipe, params = build(first)
+        kw = {}
+        if first["mode"] == "custom":
+            kw = dict(from_file=_write_table(first, "_0"),
+                      column_range=tuple(first["range"]) if first.get("range") else None)
+        obs = Observation(parameters=params, mode=first["mode"], readout=pyx.make_readout(times=[1.0]),
+                          with_dask=bool(first.get("dask")), **kw)
+    except Exception as ex:  # noqa: BLE001 -- a request refused at construction: the history ends here
+        return dict(history=[dict(raised=type(ex).__name__, msg=str(ex)[:200], runs=[], result=[], ncalls=0)],
+                    aborted="construction")
+    outs.append(_run_once(obs, det, pipe, first))
+    for k in range(1, len(steps)):
+        try:
+            if steps[k].get("objects") == "new":
+                # the same Observation is given ANOTHER detector and pipeline, configured like the edited ones would be
+                det, pipe, _ = build(steps[k])
+            _edit(obs, det, pipe, steps[k - 1], steps[k], k)
+        except Exception as ex:  # noqa: BLE001 -- the edit itself was refused (e.g. CustomMode.build): not a run
+            outs.append(dict(raised=type(ex).__name__, msg="edit: " + str(ex)[:180], runs=[], result=[], ncalls=0,
+                             edit_failed=True))
+            break
+        outs.append(_run_once(obs, det, pipe, steps[k]))
+    return dict(history=outs)
+
+
 def handle(case):
+    if "history" in case:
+        return handle_history(case)
     import pyxel
     import verif_probes_c05 as vp
     from harness import pyx
